@@ -15,6 +15,9 @@ import (
 	rsql "github.com/rqlite/sql"
 )
 
+// maxBlobLength is SQLite's default maximum length of a string or BLOB (SQLITE_MAX_LENGTH).
+const maxBlobLength = 1_000_000_000
+
 const (
 	numRewrittenStmts = "num_rewritten_stmts"
 	numParserPanics   = "num_parser_panics"
@@ -278,11 +281,16 @@ func (rw *Rewriter) Visit(node sql.Node) (w sql.Visitor, n sql.Node, err error) 
 					if h, herr := strconv.ParseInt(lit.Value, 0, 64); herr == nil &&
 						strings.HasPrefix(strings.ToLower(lit.Value), "0x") {
 						n = int(h)
-					} else if f, ferr := strconv.ParseFloat(lit.Value, 64); ferr == nil && f < math.MaxInt32 {
+					} else if f, ferr := strconv.ParseFloat(lit.Value, 64); ferr == nil && f <= maxBlobLength {
 						n = int(f)
 					} else {
 						break
 					}
+				}
+				if n > maxBlobLength {
+					// SQLite refuses a blob this large ("string or blob too big"). Leave the
+					// call alone so that every node rejects it, rather than building the blob here.
+					break
 				}
 				retNode = &sql.BlobLit{Value: fmt.Sprintf(`%X`, random.Bytes(max(n, 1)))}
 				rw.modified = true
